@@ -44,6 +44,9 @@ def run_k(ctx, kres):
     # every class x every way a two-entry template is refused x both orders: no prefix applied, nothing found under the refused label, object still changeable, disk = model
     from .. import gen2
     v += k_suite(ctx, kres, "K09-prefix-matrix(exhaustive)", [Trace("prefix-matrix", gen2.c09_prefix_matrix(gen.load_tables(), ctx.seed))], in_projection_matrix, sig_of=sig_of_matrix, shrink_budget=60)
+    # refused C_GenerateKeyPair: the private (or the public) template is rejected after / before the other half was made; nothing may stay, handle numbers go on as modelled
+    def gp_proj(m): return in_projection_matrix(m) or (m["op"] == "genpair" and m["cat"] in ("rvclass", "nums"))
+    v += k_suite(ctx, kres, "K09-genpair-failures", [Trace("genpair-failures", gen2.c09_genpair_failures(ctx.seed))], gp_proj, sig_of=sig_of_matrix, shrink_budget=60)
     # refused C_UnwrapKey (damaged blobs) / C_DeriveKey (too-short secrets, bad parameters): nothing may stay behind
     n = 16 if ctx.quick else 300
     v += k_suite(ctx, kres, "K09-unwrap-derive", [Trace("wrap%d" % i, gen.wrap_history(ctx.seed * 3497861 + i, 50)) for i in range(n)], in_projection, sig_of=sig_of)
